@@ -251,7 +251,8 @@ type asiCase struct {
 
 func asiCases() []asiCase {
 	var r []asiCase
-	for _, nl := range []string{"\n", "\r\n", "\u2028", "/*\n*/", "//c\n"} {
+	// a line terminator counts wherever it stands between the two tokens: also before a comment without one
+	for _, nl := range []string{"\n", "\r\n", "\u2028", "/*\n*/", "//c\n", "\n/* c */", "\n/**/ ", "//c\n/*d*/ /*e*/", "/*\n*/ /* c */ "} {
 		ok := func(src, exp string) { r = append(r, asiCase{strings.ReplaceAll(src, "\n", nl), exp, false}) }
 		bad := func(src string) { r = append(r, asiCase{strings.ReplaceAll(src, "\n", nl), "", true}) }
 		ok("a\nb", "Stmt(a) Stmt(b)")
@@ -599,7 +600,7 @@ func c03Work(c *engine.Ctx) {
 			if strings.Contains(a.src, "class C") && strings.Contains(b.src, "class C") || strings.Contains(a.src, "function f") && strings.Contains(b.src, "function f") {
 				continue // would declare the same name twice
 			}
-			for _, sep := range []string{"", " ", "\n", "/*\n*/", "\u2028"} {
+			for _, sep := range []string{"", " ", "\n", "/*\n*/", "\u2028", "\n/* c */ "} {
 				if b.isEmpty && (a.isEmpty || a.tailEmpty || !strings.HasSuffix(a.src, ";")) && !strings.ContainsAny(sep, "\n\u2028") {
 					// representation convention: the parser swallows one ';' on the same line after any statement,
 					// so an empty statement directly after a block-like statement (or after another ';') is not represented
